@@ -47,7 +47,7 @@ POOLS = {
     "g": [4294967296, 9223372036854775807, 1099511627776],
     "f": [0.5, -2.25, 1e-7, 123456.789],
     "b": [True, False],
-    "s": ["a", "hello world", "", "true", "@at", "é ñ", "q\"uo\\te", "line\nbreak", "1x", "-", "k v"],
+    "s": ["pooled", "hello world", "", "true", "@at", "é ñ", "q\"uo\\te", "line\nbreak", "1x", "-", "k v"],
 }
 
 
@@ -316,7 +316,7 @@ def generate(wd, tier, out):
         stats["generated"] += r.generated
         stats["wall"] = max(stats["wall"], r.wall)
         for d in r.tagged["DOC"]:
-            key = (d["ty"], canon(d["doc"]))
+            key = (d["ty"], canon(d["doc"]), canon(d["inst"]) if not d["ops"] else "")
             if key not in docs or len(d["ops"]) < len(docs[key]["ops"]):
                 docs[key] = d
     return list(docs.values()), Schema(schema), stats
@@ -412,6 +412,7 @@ def make_rows(docs, schema, cases, results, tier):
     ids = Interner()
     rows, info = [], []
     drift = []
+    unfaithful_prints = []
     stats = collections.Counter()
 
     def add(row, inf):
@@ -451,7 +452,11 @@ def make_rows(docs, schema, cases, results, tier):
                 stats["msgpack_bytes_not_the_model"] += 1
             # the printers' outputs: document rows that must read back as x on both paths
             for pi, pr in enumerate(r["printed"]):
-                add(doc_row(pr, ids, True, vx),
+                faithful = bool(pr.get("val_is_asv"))
+                if not faithful:
+                    stats["printer_output_not_the_model"] += 1
+                    unfaithful_prints.append({"ty": c["ty"], "x": x, "printer": ("std", "compact", "pretty")[pi], "text": pr["text"]})
+                add(doc_row(pr, ids, faithful, vx),
                     {"case": {"op": "doc", "ty": c["ty"], "text": pr["text"]}, "printer": ("std", "compact", "pretty")[pi], "x": x,
                      "inst_case": strip(c),
                      "obs": {kk: pr.get(kk) for kk in ("direct", "via", "conv", "mp", "parse_ok", "parse_err")}, "doc": d})
@@ -484,10 +489,12 @@ def make_rows(docs, schema, cases, results, tier):
             # the third source of events (informative): MessagePack of the parsed value
             if row["p"] and (acc(r.get("mp")) != row["m"] or (row["m"] and ids.id(r["mp"]["v"]) != row["vm"])):
                 stats["msgpack_reader_differs_from_bridge"] += 1
+    stats["_unfaithful_prints"] = unfaithful_prints
     return rows, info, drift, stats
 
 
 def doc_row(r, ids, isx, vx):
+    """isx: the text is a printer's output that parses to exactly as_value(x), x having id vx"""
     p = bool(r.get("parse_ok"))
     d, m, c = acc(r.get("direct")), acc(r.get("via")), acc(r.get("conv"))
     return {"kind": "doc", "p": p, "d": d, "m": m, "c": c,
@@ -545,15 +552,26 @@ def evaluate(wd, rows, tier):
 
 # ----------------------------------------------------------------------------- known findings
 
-def kf_match(f, law_names, inf):
-    """signature: {"law": ..., "ty": [...], "pattern": regex on the text (doc rows) or on the canonical instance}"""
-    sig = f["signature"]
-    if sig["law"] not in law_names:
-        return False
-    if inf["case"]["ty"] not in sig["ty"]:
-        return False
-    subject = inf["case"].get("text") if inf["case"]["op"] == "doc" else canon(inf["case"]["x"])
-    return re.search(sig["pattern"], subject, re.S) is not None
+def kf_match(f, law, inf):
+    """A finding's signature is a list of clauses {"law", "op": inst|doc, "cases": {type: regex}, "direct"?, "via"?}: the regex is
+    searched in the Recon text (doc rows) or in the canonical serde json of the instance (inst rows, and printed rows = the
+    texts the printers produced for an instance); direct / via are the
+    acceptance bits of the two reading paths that must have been observed."""
+    case = inf["case"]
+    kind = "printed" if inf.get("printer") else case["op"]
+    for sig in f["signature"]:
+        if sig["law"] != law or sig["op"] != kind or case["ty"] not in sig["cases"]:
+            continue
+        subject = case.get("text") if kind == "doc" else canon(inf["x"] if kind == "printed" else case["x"])
+        if re.search(sig["cases"][case["ty"]], subject, re.S) is None:
+            continue
+        obs = inf.get("obs") or {}
+        if "direct" in sig and acc(obs.get("direct")) != sig["direct"]:
+            continue
+        if "via" in sig and acc(obs.get("via")) != sig["via"]:
+            continue
+        return True
+    return False
 
 
 # ----------------------------------------------------------------------------- driver
@@ -579,11 +597,13 @@ def report(out, tier, docs, rows, info, drift, st, failed, tot, cov, gst, wd):
     for f in failed:
         inf = info[f["id"] - 1]
         laws = f["laws"]
-        k = next((kf for kf in findings if kf_match(kf, laws, inf)), None)
-        if k is not None:
-            hit[k["id"]] += 1
-            per_sig.setdefault(k["id"], k)
+        covering = [next((kf for kf in findings if kf_match(kf, law, inf)), None) for law in laws]
+        if not inf.get("panic") and all(k is not None for k in covering):
+            for k in {k["id"]: k for k in covering}.values():
+                hit[k["id"]] += 1
+                per_sig.setdefault(k["id"], k)
             continue
+        laws = [law for law, k in zip(laws, covering) if k is None] if not inf.get("panic") else laws
         subject = inf["case"].get("text", None)
         what = "law %s broken for type %s on %s" % ("+".join(laws), inf["case"]["ty"],
                                                    ("text %r" % subject) if subject is not None else ("instance %s" % canon(inf["case"]["x"])))
@@ -671,7 +691,7 @@ def replay(path, out):
         rows.append({"kind": "inst", "rt": acc(r["rt"]), "rt_eq": eq(r["rt"]), "rtc": acc(r["rtc"]), "rtc_eq": eq(r["rtc"]) and r["into_same"],
                      "mp": acc(r["mp"]), "mp_eq": eq(r["mp"]) and r.get("mp_rest", 0) == 0})
         for pr in r["printed"]:
-            rows.append(doc_row(pr, ids, True, vx))
+            rows.append(doc_row(pr, ids, bool(pr.get("val_is_asv")), vx))
     else:
         rows.append(doc_row(r, ids, False, 0))
     for i, row in enumerate(rows):
